@@ -602,9 +602,37 @@ func encodedTypeAt(st *State, call ssa.CallInstruction) types.Type {
 			v = w
 			continue
 		}
+		if phi, ok := v.(*ssa.Phi); ok {
+			if w, ok := st.Sel[phi]; ok {
+				v = w
+				continue
+			}
+		}
 		break
 	}
 	return v.Type()
+}
+
+// phiLeaves: the non-phi values a phi can take.
+func phiLeaves(v ssa.Value) []ssa.Value {
+	var out []ssa.Value
+	seen := map[ssa.Value]bool{}
+	var walk func(v ssa.Value)
+	walk = func(v ssa.Value) {
+		if seen[v] {
+			return
+		}
+		seen[v] = true
+		if phi, ok := v.(*ssa.Phi); ok {
+			for _, e := range phi.Edges {
+				walk(e)
+			}
+			return
+		}
+		out = append(out, v)
+	}
+	walk(v)
+	return out
 }
 
 // encodeSite is one element written from tar(): where it happens in tar() and the element type.
@@ -629,6 +657,21 @@ func encodeSites(fn *ssa.Function) []encodeSite {
 					continue
 				}
 				if isEnc(callee(call)) {
+					// one call that writes "whichever element was built above" (a phi of elements)
+					// stands for an element of each of these types
+					a := call.Call.Args
+					if phi, isPhi := a[len(a)-1].(*ssa.Phi); isPhi {
+						seenT := map[string]bool{}
+						for _, l := range phiLeaves(phi) {
+							if mi, isMI := l.(*ssa.MakeInterface); isMI && !seenT[mi.X.Type().String()] {
+								seenT[mi.X.Type().String()] = true
+								out = append(out, encodeSite{call, mi.X.Type()})
+							}
+						}
+						if len(seenT) > 0 {
+							continue
+						}
+					}
 					out = append(out, encodeSite{call, encodedType(call)})
 					continue
 				}
